@@ -376,9 +376,8 @@ func (f *FileStore) WalkKeys(seek []byte, fn func(key []byte, typ byte) error) e
 
 // Keys returns all keys and types for all files in the file store.
 func (f *FileStore) Keys() map[string]byte {
-	f.mu.RLock()
-	defer f.mu.RUnlock()
-
+	// WalkKeys takes the read lock itself; taking it here as well would be a
+	// recursive read lock, which deadlocks with a concurrent writer.
 	uniqueKeys := map[string]byte{}
 	if err := f.WalkKeys(nil, func(key []byte, typ byte) error {
 		uniqueKeys[string(key)] = typ
